@@ -332,7 +332,10 @@ let () =
                     if ttl > 0 then Hashtbl.replace cache (String.lowercase_ascii (nodot t.qname), t.qtype) (time_at p / 1000, time_at p / 1000 + ttl, q)
                   | _ -> ()) r.txs;
             let nm = bytes_of_string name in
-            let p4 = parse_v4 name and p6 = parse_v6 name in
+            (* IPv4 literals are decided by the model's own parser (inet_pton4); IPv6 by the driver's *)
+            let p4 = (if String.for_all (fun c -> (c >= '0' && c <= '9') || c = '.') name
+                         && List.length (String.split_on_char '.' name) = 4 then inet_pton4 nm else None)
+            and p6 = parse_v6 name in
             let fz = fam_z family in
             let src = if p4 <> None || p6 <> None then "literal" else if is_localhost nm then "localhost"
               else if qcache > 0 && List.length r.txs < nq && rounds <> [] then "cachehit"
@@ -341,9 +344,10 @@ let () =
             (* a name the query layer cannot encode fails every sub-query at once with EBADNAME
                (nothing is transmitted): one synthetic round *)
             let names_status = 0 in
-            let rounds = if r.txs = [] && not (String.for_all is_hostname_char name)
+            let bad_label = name <> "" && (name.[0] = '.' || find_sub name ".." <> None) in
+            let rounds = if r.txs = [] && (bad_label || not (String.for_all is_hostname_char name))
               then [{ r_arrivals = List.init nq (fun _ -> QErr (z_of_int 8)); r_single_label = false }] else rounds in
-            let m = getaddrinfo hf lookups nm fz (match port with Some p -> Some (z_of_int p) | None -> None) (z_of_int flags) p4 p6 (z_of_int names_status) rounds in
+            let m = getaddrinfo_c hf lookups nm fz (match port with Some p -> Some (z_of_int p) | None -> None) (z_of_int flags) p6 (z_of_int names_status) rounds in
             let nosort = flags land 0x80 <> 0 in
             (match m with
              | Err s -> diff "t%d model=Err %s (history shorter than the request?) impl=[%s]" r.tok (zs s) cbl
@@ -399,7 +403,7 @@ let () =
               match port with
               | None -> fail "addr-invented" "t%d success although the service is not a port: %s" r.tok cbl
               | Some p ->
-                let spec = List.map node_tuple (spec_gai_nodes hf lookups nm fz (z_of_int p) p4 p6 rounds) in
+                let spec = List.map node_tuple (spec_gai_nodes_c hf lookups nm fz (z_of_int p) p6 rounds) in
                 let delivered =
                   if r.api = "gai" then (if List.mem "ai=-" cbt then [] else List.map parse_node (split_list (kv cbt "nodes")))
                   else if List.mem "host=-" cbt then []
